@@ -2,7 +2,7 @@
     block loop consume exactly what they count. *)
 Require Import Zrs.lib.RsPrelude Zrs.gen.Generated Zrs.model.Headers Zrs.model.BlockDec Zrs.model.FrameDec.
 Require Import Zrs.proofs.C05_Block Zrs.proofs.C06_Frame Zrs.proofs.C11_Reset Zrs.proofs.C10_Prefix.
-Require Import Zrs.proofs.C10_All.
+Require Import Zrs.proofs.C10_All Zrs.proofs.C10_Multi.
 Open Scope Z_scope.
 
 Theorem C10_header_consumed_exactly : forall src h n, read_frame_header src = FhOk h n ->
@@ -55,6 +55,33 @@ Theorem C10_decode_all_returns_only_at_frame_boundaries : forall fuel d input ro
      decode_all_outer fuel d2 rest2 room2 w2 = ROk (d', out)).
 Proof. exact decode_all_ok_unfolds. Qed.
 
+(** concatenation: the multi-frame call is a homomorphism.  If decode_all turns [a] into [c1] and then -- with the decoder
+    and the room that are left -- [b] into [c2], it turns [a ++ b] into [c1 ++ c2]; for all inputs (any number of frames
+    and skippable frames in each part), capacities and decoders; hence any concatenation decodes to the concatenation of
+    the contents, and a skippable frame contributes nothing and leaves the decoder as it was *)
+Theorem C10_decode_all_of_a_concatenation : forall d a b cap d1 c1 d2 c2,
+  fdec_decode_all d a cap = ROk (d1, c1) -> fdec_decode_all d1 b (cap - zlen c1) = ROk (d2, c2) ->
+  fdec_decode_all d (a ++ b) cap = ROk (d2, c1 ++ c2).
+Proof. exact decode_all_app. Qed.
+
+Theorem C10_decode_all_of_many_parts : forall parts d cap d' c,
+  decode_parts d cap parts = Some (d', c) -> fdec_decode_all d (concat parts) cap = ROk (d', c).
+Proof. exact decode_all_concat. Qed.
+
+Theorem C10_skippable_frame_is_skipped : forall d f cap m len,
+  frame_front f (fd_max_window d) = inr (m, len) -> zlen (drop_z 8 f) = len -> fdec_decode_all d f cap = ROk (d, []).
+Proof. exact skippable_frame_is_skipped. Qed.
+
+(** non-vacuity: a one-byte frame, a skippable frame with 2 payload bytes, the frame again: "A" ++ "" ++ "A" *)
+Example C10_concatenation_example :
+  let f := [40; 181; 47; 253; 32; 1; 9; 0; 0; 65] in let sk := [80; 42; 77; 24; 2; 0; 0; 0; 7; 7] in
+  match decode_parts fdec_new 10 [f; sk; f] with Some (_, c) => c = [65; 65] | None => False end /\
+  match fdec_decode_all fdec_new (f ++ sk ++ f) 10 with ROk (_, c) => c = [65; 65] | _ => False end.
+Proof. split; vm_compute; reflexivity. Qed.
+
+Print Assumptions C10_decode_all_of_a_concatenation.
+Print Assumptions C10_decode_all_of_many_parts.
+Print Assumptions C10_skippable_frame_is_skipped.
 Print Assumptions C10_decode_all_rejects_short_tail.
 Print Assumptions C10_decode_all_returns_only_at_frame_boundaries.
 Print Assumptions C10_strict_prefix_never_decodes.
